@@ -37,6 +37,7 @@ from pdfminer.pdfexceptions import (
 from pdfminer.pdfparser import PDFParser, PDFStreamParser, PDFSyntaxError
 from pdfminer.pdftypes import (
     DecipherCallable,
+    PDFObjRef,
     PDFStream,
     decipher_all,
     dict_value,
@@ -969,19 +970,27 @@ class PDFDocument:
         if "Outlines" not in self.catalog:
             raise PDFNoOutlines
 
+        seen: Set[int] = set()
+
         def search(entry: object, level: int) -> Iterator[PDFDocument.OutlineType]:
-            entry = dict_value(entry)
-            if "Title" in entry:
-                if "A" in entry or "Dest" in entry:
-                    title = decode_text(str_value(entry["Title"]))
-                    dest = entry.get("Dest")
-                    action = entry.get("A")
-                    se = entry.get("SE")
-                    yield (level, title, dest, action, se)
-            if "First" in entry and "Last" in entry:
-                yield from search(entry["First"], level + 1)
-            if "Next" in entry:
-                yield from search(entry["Next"], level)
+            # siblings are walked in a loop, and an item is visited once: a
+            # /Next or /First link leading back into the outline ends the walk
+            while entry is not None:
+                if isinstance(entry, PDFObjRef):
+                    if entry.objid in seen:
+                        return
+                    seen.add(entry.objid)
+                entry = dict_value(entry)
+                if "Title" in entry:
+                    if "A" in entry or "Dest" in entry:
+                        title = decode_text(str_value(entry["Title"]))
+                        dest = entry.get("Dest")
+                        action = entry.get("A")
+                        se = entry.get("SE")
+                        yield (level, title, dest, action, se)
+                if "First" in entry and "Last" in entry:
+                    yield from search(entry["First"], level + 1)
+                entry = entry.get("Next")
 
         return search(self.catalog["Outlines"], 0)
 
